@@ -703,3 +703,19 @@ Proof.
   destruct (compiler_info (snd (serve_all [] before)) q) as [a m1]. simpl in Hq. subst a.
   destruct (serve_all m1 after). reflexivity.
 Qed.
+
+(* ---------- the address the spawned server reports ---------- *)
+
+Lemma path_eqb_refl p : path_eqb p p = true.
+Proof. induction p as [|x p IH]; simpl; [reflexivity|]. rewrite N.eqb_refl. exact IH. Qed.
+
+(* however the requested address is spelled, the server that was started for it reports that very address *)
+Lemma server_reports_requested_address a : report_of_started_server a = SOk true.
+Proof. unfold report_of_started_server, server_binds. rewrite path_eqb_refl. reflexivity. Qed.
+
+Lemma cold_start_any_address a later :
+  connect_with_retry later = true ->
+  connect_or_start ARefused (report_of_started_server a) later = None.
+Proof.
+  intros H. rewrite server_reports_requested_address. apply connect_or_start_table. right. auto.
+Qed.
